@@ -254,7 +254,8 @@ package backend
 // (the block hash is written into the logs of the freshly parsed receipt; the frame names the field, not the objects)
 //@   modifies txSrc, fieldof(type(ethtypes.Log), BlockHash)
 //@   panics any
-//@   at call TxReceiptFromEvent@2 assert[C14.prev_loop_counted_tx] !brDropped(blockRes, txIdx) && txDecodes(b.clientCtx.TxConfig.TxDecoder(), blkTxBytes(resBlock, txIdx)) && singleEthBytes(blkTxBytes(resBlock, txIdx)) && bytes(prevEthMsg.MarshalledTx) == ethTxOfBytes(blkTxBytes(resBlock, txIdx))
+//@   at call TxReceiptFromEvent@2 assert[C14.prev_loop_consensus_counts_this_tx] !brDropped(blockRes, txIdx)
+//@   at call TxReceiptFromEvent@2 assert[C14.prev_loop_counted_tx] txDecodes(b.clientCtx.TxConfig.TxDecoder(), blkTxBytes(resBlock, txIdx)) && singleEthBytes(blkTxBytes(resBlock, txIdx)) && bytes(prevEthMsg.MarshalledTx) == ethTxOfBytes(blkTxBytes(resBlock, txIdx))
 //@   at call NewRPCReceiptFromReceipt@1 assert[C14.receipt_msg_is_this_tx] singleEthBytes(blkTxBytes(resBlock, res.TxIndex)) ==> bytes(ethMsg.MarshalledTx) == ethTxOfBytes(blkTxBytes(resBlock, res.TxIndex))
 //@   at call NewRPCReceiptFromReceipt@1 assert[C14.receipt_branch_by_own_result] (icReceipt != nil) == rsHas(blockRes, res.TxIndex) && !rsErr(blockRes, res.TxIndex)
 //@   at call NewRPCReceiptFromReceipt@1 assert[C14.receipt_from_own_result] icReceipt != nil ==> (receipt == icReceipt.Receipt && receipt != nil && receipt.GasUsed == rsGasUsed(blockRes, res.TxIndex) && receipt.CumulativeGasUsed == rsCumGas(blockRes, res.TxIndex) && receipt.Status == rsStatus(blockRes, res.TxIndex) && receipt.Type == rsType(blockRes, res.TxIndex) && receipt.TransactionIndex == rsTxIndex(blockRes, res.TxIndex) && receipt.TxHash == rsTxHash(blockRes, res.TxIndex) && receipt.ContractAddress == rsContract(blockRes, res.TxIndex) && len(receipt.Logs) == rsNLogs(blockRes, res.TxIndex))
